@@ -38,8 +38,8 @@ CHECKS = {
  "C11": dict(tech="runtime monitoring: arithmetic predicate monitor (finite, exact one-decimal, range, Rating accepts) on every scoring result of complete class sweeps",
    text="Every result of every rounded scoring method over the complete class sweeps of v3.0/v3.1/v4.0 (v2.0 complete in thorough) and random raw objects must be finite, equal float64(k)/10, in range and accepted by Rating.",
    note="pure predicate, no model", ref="3 C11"),
- "C16": dict(tech=ORACLE + " (nomenclature from the assignment); complete sole-metric / all-but-one / pair matrices + random histories",
-   text="Nomenclature() compared with the group-membership oracle on every optional metric as the sole defined one (x value x background x history style), all-but-one, all pairs and random assignments built through hostile histories.",
+ "C16": dict(tech=ORACLE + " (nomenclature from the assignment); complete enumeration of all threat x environmental configurations by a Gray-code walk of Set calls",
+   text="Nomenclature() compared with the group-membership oracle on ALL 1,179,648,000 configurations of the threat metric and the 14 environmental metrics (Gray-code walk, one Set per step on a real object), plus every optional metric as the sole defined one, all-but-one, all pairs, every assignment with at most 4/5 optional metrics defined, and random assignments built through hostile histories.",
    note="trusts Table 23 group membership in harness/spec/vocab.go", ref="3 C16"),
  "C10": dict(tech="runtime monitoring: metamorphic sibling-equality monitor (objects with equal effective values must score equal); complete per-metric override matrix",
    text="No model: objects that differ only in overridden base values, in where an effective value is carried (Modified vs base), in X vs explicit copy, in not-defined vs spelled-out default, in supplemental metrics (v4) or environmental metrics (v3 base/temporal) must return identical scores. Complete per overridable metric x base value x Modified value on seeded backgrounds incl. the all-None/all-High impact corners.",
